@@ -6,7 +6,7 @@ from s4ucheck import S4UCheck
 
 class C06(S4UCheck):
     pid = 'C06'
-    rule = ('seeded plans: 2-6 actors, 1-2 condition variables each with its own mutex; waiters do lock; wait | '
+    rule = ('seeded plans: 2-6 actors, 1-2 condition variables each with its own mutex, or two conditions sharing one mutex; waiters do lock; wait | '
             'wait_for(t) | wait_until(d); unlock, notifiers do notify_one | notify_all with or without the mutex; dyadic '
             'think times so notifications land before, between, at the deadline of, and after waits; t includes 0. '
             'Oracle: FIFO reference model (oldest waiter woken or notification lost, notify_all wakes those present, '
@@ -23,12 +23,13 @@ class C06(S4UCheck):
         plan['objects'] = dict(cv=['c%d' % i for i in range(ncv)], mutex=[['m%d' % i, 0] for i in range(ncv)])
         nact = r.randint(2, 6)
         zero_class = r.chance(0.25)
+        shared_mutex = ncv == 2 and r.chance(0.35)    # two conditions on one mutex (not_full / not_empty)
         for ai in range(nact):
             ops = []
             waiter = r.chance(0.55)
             for _ in range(r.randint(1, 4)):
                 i = r.below(ncv)
-                cv, m = 'c%d' % i, 'm%d' % i
+                cv, m = 'c%d' % i, ('m0' if shared_mutex else 'm%d' % i)
                 if r.chance(0.7):
                     ops.append(['sleep', gen.think(r, 0.25)])
                 if waiter if r.chance(0.8) else not waiter:
